@@ -39,7 +39,7 @@ fn opt(v: Option<usize>) -> String { v.map(|x| x.to_string()).unwrap_or("-".into
 fn fmt_list(v: &[u64]) -> String { format!("[{}]", v.iter().map(|x| x.to_string()).collect::<Vec<_>>().join(",")) }
 fn ints(s: &str) -> Vec<u64> { if s == "-" { vec![] } else { s.split(',').map(|x| x.parse().unwrap()).collect() } }
 
-enum Next { End, Resplit(bool) }
+enum Next { End, DropBuf, Resplit(bool) }
 
 struct Session<'b, B: MutRB, const WK: bool> {
     p: Slot<ProdIter<'b, B>>,
@@ -191,7 +191,7 @@ impl<'b, T: ItemX, B: MutRB<Item = T>, const WK: bool> Session<'b, B, WK> {
                 "unit".into() }
             "dropbuf" | "resplit" => {
                 if self.heap || self.freed || self.p.here() || self.w.here() || self.c.here() { return bad; }
-                return Err(if words[0] == "dropbuf" { Next::End } else { Next::Resplit(words[1] == "3") });
+                return Err(if words[0] == "dropbuf" { Next::DropBuf } else { Next::Resplit(words[1] == "3") });
             }
             x => panic!("unknown op {x}"),
         };
@@ -297,6 +297,7 @@ fn heap_default<T, B: HeapDefault<T>>(n: usize) -> B { B::mk_default(n) }
 macro_rules! stack_run_n {
     ($B:ident, $T:ty, $N:literal, $cfg:expr, $ls:expr, $out:expr) => {{
         let cfg = $cfg;
+        let lsr: &mut Lines = $ls;
         let all_zero = cfg.init.iter().all(|v| *v == 0);
         let r = std::panic::catch_unwind(|| -> $B<$T, $N> {
             if cfg.ctor == "zeroed" || (all_zero && <$T as Item>::OWNED) { unsafe { $B::<$T, $N>::new_zeroed() } }
@@ -314,15 +315,29 @@ macro_rules! stack_run_n {
                 loop {
                     let nx = if stages3 {
                         let (p, w, c) = buf.split_mut();
-                        run_session::<$T, _, true>(Session { p: Slot::Att(p), w: Slot::Att(w), c: Slot::Att(c), heap: false, freed: false, len: $N }, $ls, $out, first)
+                        run_session::<$T, _, true>(Session { p: Slot::Att(p), w: Slot::Att(w), c: Slot::Att(c), heap: false, freed: false, len: $N }, &mut *lsr, $out, first)
                     } else {
                         let (p, c) = buf.split();
-                        run_session::<$T, _, false>(Session { p: Slot::Att(p), w: Slot::Gone, c: Slot::Att(c), heap: false, freed: false, len: $N }, $ls, $out, first)
+                        run_session::<$T, _, false>(Session { p: Slot::Att(p), w: Slot::Gone, c: Slot::Att(c), heap: false, freed: false, len: $N }, &mut *lsr, $out, first)
                     };
-                    match nx { Next::End => break, Next::Resplit(w3) => { stages3 = w3; first = Some("unit"); } }
+                    match nx {
+                        Next::End => { drop(buf); break }
+                        Next::Resplit(w3) => { stages3 = w3; first = Some("unit"); }
+                        Next::DropBuf => {
+                            // the owner drops the stack buffer; nothing is usable afterwards
+                            drop(buf);
+                            emit($out, "unit", "ix=-,-,- | pub=-,-,- | alive=--- | ca=-,-,- | freed=1");
+                            while lsr.pos < lsr.lines.len() {
+                                let l = lsr.lines[lsr.pos].trim().to_string();
+                                if l.starts_with("cfg") || l.starts_with('#') { break; }
+                                lsr.pos += 1;
+                                if !l.is_empty() { emit($out, "bad", "ix=-,-,- | pub=-,-,- | alive=--- | ca=-,-,- | freed=1"); }
+                            }
+                            writeln!($out, "live={}", fmt_list(&if <$T as Item>::OWNED { live_ids() } else { vec![] })).unwrap();
+                            break
+                        }
+                    }
                 }
-                // `dropbuf` or end of history: the owner drops the stack buffer
-                drop(buf);
             }
         }
     }};
@@ -368,13 +383,13 @@ fn run_file(path: &str, out: &mut impl Write) {
             ("conc", "heap", true) => heap_run!(ConcurrentHeapRB, Owned, &cfg, &mut ls, out),
             ("local", "heap", true) => heap_run!(LocalHeapRB, Owned, &cfg, &mut ls, out),
             #[cfg(not(feature = "vmem"))]
-            ("conc", "stack", false) => stack_dispatch!(ConcurrentStackRB, u64, &cfg, &mut ls, out; 0,1,2,3,4,5,6,7,8,9,10,11,12,13,16,31,64),
+            ("conc", "stack", false) => stack_dispatch!(ConcurrentStackRB, u64, &cfg, &mut ls, out; 0,1,2,3,4,5,7,8,13,16),
             #[cfg(not(feature = "vmem"))]
-            ("local", "stack", false) => stack_dispatch!(LocalStackRB, u64, &cfg, &mut ls, out; 0,1,2,3,4,5,6,7,8,9,10,11,12,13,16,31,64),
+            ("local", "stack", false) => stack_dispatch!(LocalStackRB, u64, &cfg, &mut ls, out; 0,1,2,3,4,5,7,8,13,16),
             #[cfg(not(feature = "vmem"))]
-            ("conc", "stack", true) => stack_dispatch!(ConcurrentStackRB, Owned, &cfg, &mut ls, out; 0,1,2,3,4,5,6,7,8),
+            ("conc", "stack", true) => stack_dispatch!(ConcurrentStackRB, Owned, &cfg, &mut ls, out; 0,1,2,3,4,5),
             #[cfg(not(feature = "vmem"))]
-            ("local", "stack", true) => stack_dispatch!(LocalStackRB, Owned, &cfg, &mut ls, out; 0,1,2,3,4,5,6,7,8),
+            ("local", "stack", true) => stack_dispatch!(LocalStackRB, Owned, &cfg, &mut ls, out; 0,1,2,3,4,5),
             _ => panic!("unsupported configuration: {l}"),
         }
         EXPECT_DROP.with(|c| c.set(false));
